@@ -24,7 +24,9 @@ RULE = ("(M) exhaustive TLC on TablesPar.tla (2 tables x 2x2 cells sparse, L=2; 
         "sequential run, same schedules in a -race build; (T) hook traces of un-imposed runs validated by TablesPar_trace; "
         "(own 2x3x3 recordings, cmd/benchstat's golden tests, recordings with 50-100 cell workers at GOMAXPROCS 1-3 by "
         "TablesParObs_trace/TablesParDyn_trace); un-imposed runs on 10 (60) big shapes of 1-3 units x 10-39 rows x 2-5 columns "
-        "at GOMAXPROCS 2,16,3,4,8,1 vs 1, plain and -race; benchstat binary repeat/permutation runs on 6 (60) small and 8 (24) "
+        "at GOMAXPROCS 2,16,3,4,8,1 vs 1, plain and -race; benchstat binary repeat/permutation runs on 6 (60) small inputs, as many mixed-spelling inputs (every line spells "
+        "ns/op|sec/op, MB/s|B/s, ns/GC|sec/GC at random) under 14 -filter expressions (.unit in reported and tidied spelling, "
+        "negations, alternatives, regexps, combined with name/sub-name/file keys and projections) and 8 (24) "
         "large inputs (names: 1030-1600 benchmarks x 3-4 passes x 2 files; sweep: 5 benchmarks x 1030-1400 runs with run/commit "
         "keys; grid: 30-45 benchmarks x 2 files x 2 units with 3-210 runs per cell; units: 30-45 benchmarks with 1..70 runs and 90 prefixed custom units). distinct_nontrivial = distinct imposed schedules in which at least two workers "
         "overlap.")
